@@ -263,7 +263,7 @@ PROPS = {
         trusted=["std::fs / tiny-skia save_png / the kernel (modelled as create + write_all)", "fault injection by rlimits, uid drop and special paths in a child process"],
         assumptions=["short writes other than the one before a file-size limit, EINTR and Ok(0) are covered by the theorem only, not injected"]),
     "C13": dict(
-        module="FastQr.Props.C13", more_modules=["FastQr.Props.C13Ideal"], level="proof", partial=True,
+        module="FastQr.Props.C13", more_modules=["FastQr.Props.C13Ideal", "FastQr.Props.C13Built"], level="proof", partial=True,
         key=lambda t: (("pixh", t[4], tuple(x[0] for x in t[7].split(";"))) if t[0] == "pixh" else ("pixsvg", t[4], tuple(x for x in t[6].split(";") if x.startswith(("m:", "s:")))) if t[0] == "pixsvg" else ("pix", t[4], tuple(x for x in t[6].split(";") if x.startswith(("m:", "s:"))), t[7] != "-", t[8] != "-", t[6].split("bc:")[-1][-2:])) if len(t) > 9 else None,
         missing=["the rasteriser (resvg/usvg/tiny-skia), anti-aliasing, colour conversion and the PNG codec are external and not modelled"],
         rule="cases: (`pixh`: HISTORIES of 2..5 fit_width / fit_height calls on one builder — the last width and the last height both stay in force; `pixsvg`: the ideal rasteriser Spec.Raster run on the REAL SVG text against the real pixmap, cell centres and every pixel of pixmaps up to 130 px, 6 shapes x integer and non-integer scales) real ImageBuilder::to_pixmap / to_bytes: versions (quick 1, 2, 7; thorough all 40) x 6 shapes x margins "
